@@ -49,7 +49,16 @@ def witnesses():
     return {"alt-mapped-object-in-cycle-left-as-mapping": {"handwritten": True, "seed": 1, "n": 60},
             "hierarchy-reference-mapped-one-to-many": {"seed": 5, "n": 30, "spec": {
         "module": "rw_node", "order": ["K0", "K1"], "profile": "rt", "classes": [
-            cl("K0", None, [f("uid", "int"), f("f0_0", "self_opt", "K0")]), cl("K1", "K0", [f("f1_0", "int")])]}}}
+            cl("K0", None, [f("uid", "int"), f("f0_0", "self_opt", "K0")]), cl("K1", "K0", [f("f1_0", "int")])]}},
+            "init-false-fields-not-restored": {"seed": 3, "n": 30, "spec": NO_INIT_SPEC}}
+
+
+NO_INIT_SPEC = {"module": "rw_noinit", "order": ["K0", "K1"], "profile": "rt", "classes": [
+    {"name": "K0", "parent": None, "fields": [{"name": "uid", "kind": "int", "target": None},
+                                              {"name": "f0_0", "kind": "int", "target": None, "no_init": True},
+                                              {"name": "f0_1", "kind": "opt_ref", "target": "K1", "no_init": True},
+                                              {"name": "f0_2", "kind": "list_ref", "target": "K1", "no_init": True}]},
+    {"name": "K1", "parent": None, "fields": [{"name": "uid", "kind": "int", "target": None}, {"name": "f1_0", "kind": "str", "target": None, "no_init": True}]}]}
 
 
 def run(case, ctx):
